@@ -648,6 +648,11 @@ func (E *Engine) encodeLemmas(p string) (enc *FnEnc, err error) {
 			hasTable = true
 		}
 	}
+	for _, ia := range E.CS.InitArgs {
+		if hasProp(ia.Props, p) {
+			hasTable = true
+		}
+	}
 	for _, sl := range E.CS.Slots {
 		if hasProp(sl.Props, p) {
 			hasTable = true
@@ -683,6 +688,7 @@ func (E *Engine) encodeLemmas(p string) (enc *FnEnc, err error) {
 	E.stableObligations(p, enc)
 	E.slotObligations(p, enc)
 	E.builtinObligations(p, enc)
+	E.initArgObligations(p, enc)
 	E.confinementObligations(p, enc)
 	E.globalsObligations(p, enc)
 	return enc, nil
